@@ -1,6 +1,6 @@
 """C18 - EBLIF files are read faithfully and survive write-then-read."""
 from simkit.engine import Prop
-from simkit import design_shrink
+from simkit import design_shrink, history
 from simkit.gen_hier import ScriptGen
 from simkit import corpus, textgen_eblif
 from simkit.model import scan
@@ -81,6 +81,7 @@ class C18(Prop):
                          "allow_before": r.random() < 0.3}
         cfg["restart"] = r.random() < 0.3
         cfg["opts"] = r.choice([{}, {}, {"write_blackbox": True}, {"write_eblif_cname": True}])
+        cfg["prior_rejected"] = r.random() < 0.2   # an earlier read of a broken text in the same process
         return cfg
 
     def make_gen(self, w, rng, cfg):
@@ -90,6 +91,8 @@ class C18(Prop):
         else:
             d = textgen_eblif.gen_design(rng, cfg["gen"])
             rs = rng.getrandbits(32)
+            if cfg.get("prior_rejected"):
+                ev.extend(history.prior_rejected(rng, design_shrink.render("eblif", d, rs, cfg["render"]), "sim://bad.eblif"))
             ev.append({"op": "fs_put", "path": "sim://in.eblif", "text": design_shrink.render("eblif", d, rs, cfg["render"]),
                        "design": d, "fmt": "eblif", "render": cfg["render"], "render_seed": rs})
         ev.append({"op": "parse", "path": "sim://in.eblif", "tag": "read"})
@@ -106,7 +109,7 @@ class C18(Prop):
         self.stop = False
 
     def before(self, w, ev):
-        if ev["op"] == "fs_put":
+        if ev["op"] == "fs_put" and not ev.get("prior"):
             self.design = ev.get("design")
 
     def after(self, w, ev, outcome, pre):
